@@ -10,6 +10,7 @@ import re
 
 import glue
 import summ
+import summ2
 from glueprops import run_groups
 
 LEVEL = "proof"
@@ -42,30 +43,27 @@ def run(run_, ctx):
             if len(ks) != 1 or len(kd) != 1:
                 run_.bad("X", key, "expected exactly one Serialize and one Deserialize impl, found %d/%d" % (len(ks), len(kd)))
                 continue
-            ls = " ".join(summ.lines(summ.summarize(F, fns[ks[0]])))
-            ld = " ".join(summ.lines(summ.summarize(F, fns[kd[0]])))
+            so = summ2.summarize(F, fns[ks[0]])["outcomes"]
+            do = summ2.summarize(F, fns[kd[0]])["outcomes"]
+            ls = " ".join(o["text"] for o in so)
+            ld = " ".join(o["text"] for o in do)
             probs = []
             nb = SIZE[t]
-            if "<[u8; %d] as Serialize>::serialize" % nb not in ls:
-                probs.append("Serialize does not hand a [u8; %d] to serde's array impl" % nb)
-            # byte order visible in the element terms: first element is the low byte for LE, the high byte for BE
-            m = re.search(r"serialize\(&\{\[(.*?)\]\}", ls)
-            if not m:
-                probs.append("cannot see the byte array being serialized")
-            else:
-                elems = m.group(1).split("), (")
-                first = elems[0]
-                low_first = "Shr" not in first
-                if (order == "LE") != low_first:
-                    probs.append("byte order of the serialized array is not %s" % order)
-                if len(elems) != nb:
-                    probs.append("%d bytes serialized, expected %d" % (len(elems), nb))
-            want = "from_le_bytes" if order == "LE" else "from_be_bytes"
-            other = "from_be_bytes" if order == "LE" else "from_le_bytes"
-            if ("impl %s>::%s" % (t, want)) not in ld or other in ld:
-                probs.append("Deserialize does not rebuild the integer with %s::%s" % (t, want))
-            if "<[u8; %d] as Deserialize>::deserialize" % nb not in ld:
-                probs.append("Deserialize does not read a [u8; %d]" % nb)
+            # the array handed to serde, element by element: byte k of the value, in wrapper order
+            exp = ["(self.0 as u8)" if nb > 1 else "self.0"] + ["(Shr(self.0, %d) as u8)" % (8 * k) for k in range(1, nb)]
+            if t == "i8" or (nb == 1 and t.startswith("i")):
+                exp = ["(self.0 as u8)"]
+            if order == "BE":
+                exp = exp[::-1]
+            want_call = "#1 = <[u8; %d] as Serialize>::serialize(&{[%s]}, arg2)" % (nb, ", ".join(exp))
+            for o in so:
+                if not o["text"].startswith(want_call + " => "):
+                    probs.append("Serialize does not hand the %d %s bytes of the value, in order, to serde's [u8; %d] impl (does: %s)" % (nb, order, nb, o["text"][:200]))
+                    break
+            oks = [o for o in do if "=> Result::Ok(" in o["text"]]
+            want_ok = "#1 = <[u8; %d] as Deserialize>::deserialize(arg1) => Result::Ok(%s(from_%s_bytes::<%s>(okval(#1))))" % (nb, order, order.lower(), t)
+            if len(oks) != 1 or oks[0]["text"] != want_ok:
+                probs.append("Deserialize does not rebuild the integer with %s::from_%s_bytes from a [u8; %d] (does: %s)" % (t, order.lower(), nb, [o["text"][:200] for o in oks]))
             if re.search(r"serialize_[ui](16|32|64|128)|varint", ls + ld):
                 probs.append("a varint path is reachable")
             run_.check(not probs, "X", key, probs[0] if probs else "ser/de agree on %s order, %d bytes" % (order, nb),
@@ -79,7 +77,7 @@ def run(run_, ctx):
             if f is None:
                 run_.bad("W", k, "module function not found")
                 continue
-            l = " ".join(summ.lines(summ.summarize(F, f)))
+            l = " ".join(o["text"] for o in summ2.summarize(F, f)["outcomes"])
             run_.check(("fixint::%s<T>" % wrap) in l and ("fixint::%s<T>" % ("BE" if wrap == "LE" else "LE")) not in l,
                        "W", k, "`%s` module must go through the %s wrapper" % (mod, wrap), f.where(), found=l)
     run_.floor("W", 4)
